@@ -50,6 +50,12 @@ def g3(x) -> tag.C & tag.A & tag.C:
 def g4(x) -> int:
     y = x + 5
     return y
+def g8(x) -> "@B":
+    y = x + 8
+    return y
+def g9(x) -> "@D & @A & @D":
+    y = x + 9
+    return y
 def _mk():
     k6, k7 = 6, 7
     def g6(x) -> tag.B:
@@ -61,8 +67,8 @@ def _mk():
     return g6, g7
 g6, g7 = _mk()
 '''
-RET_Y = {"g0": 11, "g1": 12, "g2": 13, "g3": 14, "g4": 15, "g6": 16, "g7": 17}
-RET_TAGS = {"g0": [], "g1": ["A"], "g2": ["A", "B"], "g3": ["A", "C"], "g4": [], "g6": ["B"], "g7": ["A", "D"]}
+RET_Y = {"g0": 11, "g1": 12, "g2": 13, "g3": 14, "g4": 15, "g6": 16, "g7": 17, "g8": 18, "g9": 19}
+RET_TAGS = {"g0": [], "g1": ["A"], "g2": ["A", "B"], "g3": ["A", "C"], "g4": [], "g6": ["B"], "g7": ["A", "D"], "g8": ["B"], "g9": ["A", "D"]}
 
 
 def part_a(res):
